@@ -362,7 +362,7 @@ CONTRACTS = CONTRACTS + [SETITEM, GETITEM, APPEND]
 
 
 # ---- isValue: a value object all of whose members are values -----------------------------------------------------------------
-from pyvc.core import RecSeqV, Loop, S
+from pyvc.core import RecSeqV, Loop, S, SeqV
 KEY_OF = z3.Function('keyOfListed', I, I)
 POS_OF = z3.Function('listedAt', I, I)
 NOV = IntVal(NOVALUE.uid)
@@ -910,3 +910,127 @@ ISINCONSISTENT = contract(
         ('read-only', 'schema or unchanged(self._componentValues)')],
     note='subtypeSpec.__call__ is the constraint contracts\' entry point (assumed model here: admits or raises)')
 CONTRACTS = CONTRACTS + [ISINCONSISTENT]
+
+
+# ---- __iter__ / extend of SEQUENCE OF: positions 0..len-1 in order; every given value appended in order -------------------------
+def _self_iter(ex, env):
+    o = _self()(ex, env)
+
+    def get_pos(ex2, self, idx, *a, **kw):
+        """callee contract getComponentByPosition (existing member: handed out, nothing changes)"""
+        self.fields['reads'] = self.fields['reads'] + 1
+        self.fields['lastRead'] = toint(idx)
+        return element(Select(ID0, toint(idx)))
+    o.methods['getComponentByPosition'] = get_pos
+    o.fields['reads'] = IntVal(0)
+    o.fields['lastRead'] = IntVal(-1)
+    return o
+
+
+ITER = contract(
+    id='type.univ::SequenceOfAndSetOfBase.__iter__', qual='SequenceOfAndSetOfBase.__iter__', properties=['C19', 'C04'],
+    is_generator=True,
+    params=dict(componentType=PConst(None), self=PDerived(_self_iter)), globals=dict(G, id0=FnV(lambda ex, k: Select(ID0, toint(k)), 'id0')),
+    loops={0: Loop(index='k', invariant=['self.reads == k'], havoc_fields=['self.reads', 'self.lastRead'])},
+    # iteration order = position order, each position exactly once
+    yield_ensures=[('k-th-item-is-position-k', 'self.lastRead == self.reads - 1 and idof(y) == id0(self.lastRead)')],
+    exit_ensures=[('as-many-items-as-len', 'schema or not dense0 or self.reads == L0')],
+    note='len(self) and getComponentByPosition are the callee contracts proved above')
+ITER.multi_value = True
+
+
+class IdSeq(RecSeqV):
+    """a python sequence of value objects given by the caller: elements known by identity"""
+
+    def elem(self, i):
+        return Obj('Asn1Item', {'__id__': self.cols[0][i], 'isValue': True}, bases=('Asn1Item',), name='given')
+
+
+def _self_extend(ex, env):
+    o = _self()(ex, env)
+
+    def append(ex2, self, value):
+        """callee contract append (proved above): one more member at the end, or IndexError and nothing changes"""
+        if ex2.choose(ex2.fresh('append.refused', BoolSort()), 'append-refused'):
+            raise _Raise(ExcV('IndexError'))
+        self.fields['appended'] = SeqV(z3.Concat(self.fields['appended'].z, z3.Unit(idof(value))), 'any')
+    o.methods['append'] = append
+    o.fields['appended'] = SeqV(z3.Empty(S), 'any')
+    return o
+
+
+EXTEND = contract(
+    id='type.univ::SequenceOfAndSetOfBase.extend', qual='SequenceOfAndSetOfBase.extend', properties=['C19', 'C04'],
+    params=dict(componentType=PConst(None), self=PDerived(_self_extend),
+                values=PDerived(lambda ex, env: IdSeq([z3.Const('given', S)], names=('__id__',)))),
+    globals=dict(G, prefix=FnV(lambda ex, seq, k: SeqV(z3.Extract(seq.cols[0], IntVal(0), toint(k)), 'any'), 'prefix'),
+                 all_given=FnV(lambda ex, seq: SeqV(seq.cols[0], 'any'), 'all_given')),
+    loops={0: Loop(index='k', invariant=['self.appended == prefix(values, k)'], havoc_fields=['self.appended'])},
+    ensures=[('every-value-appended-in-order', 'self.appended == all_given(values)'),
+             # extend([]) on a schema object makes it an (empty) value, as list semantics wants
+             ('an-extended-object-is-a-value', 'self._componentValues is not noValue')],
+    raise_ensures={'IndexError': ['True']},
+    may_raise={'IndexError': True},
+    note='the given values are any python sequence of value objects; append is the callee contract')
+CONTRACTS = CONTRACTS + [ITER, EXTEND]
+
+
+# ---- name-addressed access to a record = position-addressed access at the position of the name ---------------------------------
+NAME = 'the-name'
+POS_OF_NAME = z3.Int('positionOfName')
+
+
+def _self_by_name(ex, env):
+    declared = ex.choose(z3.Bool('record.declared'), 'declared-components')
+
+    def pos_by_name(kind):
+        def f(ex2, self, name):
+            if name != NAME:
+                raise Unsupported('lookup of another name')
+            if not ex2.choose(z3.Bool('name.known'), 'name-known'):
+                raise _Raise(ExcV('PyAsn1Error' if kind == 'declared' else 'KeyError'))
+            return POS_OF_NAME
+        return f
+    o = Obj('Sequence', {'_componentTypeLen': 3 if declared else 0,
+                         'componentType': Obj('NamedTypes', {}, {'getPositionByName': pos_by_name('declared')}, name='componentType'),
+                         '_dynamicNames': Obj('DynamicNames', {}, {'getPositionByName': pos_by_name('dynamic')}, name='_dynamicNames'),
+                         'got': None, 'args': None}, name='self')
+
+    def get_pos(ex2, self, idx, default=NOVALUE, instantiate=True):
+        self.fields['args'] = Tup([idx, default, instantiate])
+        r = Obj('Asn1Item', {}, name='component')
+        self.fields['got'] = r
+        return r
+
+    def set_pos(ex2, self, idx, value=NOVALUE, verifyConstraints=True, matchTags=True, matchConstraints=True):
+        self.fields['args'] = Tup([idx, value, verifyConstraints, matchTags, matchConstraints])
+        if ex2.choose(ex2.fresh('set.refused', BoolSort()), 'assignment-refused'):
+            raise _Raise(ExcV('PyAsn1Error'))
+        return self
+    o.methods['getComponentByPosition'] = get_pos
+    o.methods['setComponentByPosition'] = set_pos
+    return o
+
+
+_BN = {'known': z3.Bool('name.known'), 'pos': POS_OF_NAME, 'noValue': NOVALUE,
+       'error': {'PyAsn1Error': ClassV('PyAsn1Error'), '__name__': 'error'}}
+GET_BY_NAME = Contract(
+    file=U, id='type.univ::SequenceAndSetBase.getComponentByName', qual='SequenceAndSetBase.getComponentByName', properties=['C19'],
+    params=dict(self=PDerived(_self_by_name), name=PConst(NAME), default=POneOf(NOVALUE, DEFAULT), instantiate=PBool()),
+    globals=_BN,
+    ensures=[('the-component-at-the-position-of-the-name', 'known and result is self.got and self.args[0] == pos and '
+                                                           'self.args[1] is default and self.args[2] == instantiate')],
+    # ill-formed: an unknown name is a library error and nothing was touched
+    raise_ensures={'PyAsn1Error': ['not known', 'self.args is None']},
+    may_raise={'PyAsn1Error': True})
+SET_BY_NAME = Contract(
+    file=U, id='type.univ::SequenceAndSetBase.setComponentByName', qual='SequenceAndSetBase.setComponentByName', properties=['C19'],
+    params=dict(self=PDerived(_self_by_name), name=PConst(NAME), value=PConst(NEW_VALUE), verifyConstraints=PBool(),
+                matchTags=PBool(), matchConstraints=PBool()),
+    globals=dict(_BN, value=NEW_VALUE),
+    ensures=[('assigned-at-the-position-of-the-name', 'known and result is self and self.args[0] == pos and self.args[1] is value and '
+                                                      'self.args[2] == verifyConstraints and self.args[3] == matchTags and '
+                                                      'self.args[4] == matchConstraints')],
+    raise_ensures={'PyAsn1Error': ['not known ==> self.args is None']},
+    may_raise={'PyAsn1Error': True})
+CONTRACTS = CONTRACTS + [GET_BY_NAME, SET_BY_NAME]
